@@ -572,6 +572,21 @@ NEUTRAL_MUTATORS = {
     ("HyperElasticState", "matrixType (setter)"): "transient evaluation object, not a model or a simulation",
     ("_Elastic", "Get_sqrt_C_S"): "fills the derived cache covered by entry t_model_cache_refresh",
 }
+# the CHECKED part of that review (translator/C14_mutators.neutral_argument, recomputed on every run): where the
+# attributes the mutator writes are read.  unread = by no method reachable from the assembly / solve / result entry points
+# (incl. what Solvers.py reads through `simu.<name>`); read-outside-assembly = never by Construct_local_matrix_system /
+# Assembly, whose output is what the needUpdate flag caches; read-in-newton-assembly = by the assembly of a class whose
+# __init__ selects the Newton algorithm (reassembled at every iteration: table entry t_newton_need);
+# model-state-read-by-its-methods = a model / state object, reviewed only.  "read-in-cached-assembly" is never acceptable.
+NEUTRAL_EXPECTED = {
+    ("_Simu", "folder (setter)"): "read-outside-assembly", ("_Simu", "solver (setter)"): "read-outside-assembly",
+    ("PhaseField", "Results_Set_Bc_Summary"): "unread", ("PhaseField", "Results_Set_Iteration_Summary"): "unread",
+    ("PhaseField", "Get_lb_ub"): "read-outside-assembly", ("PhaseField", "Results_dict_Energy"): "read-outside-assembly",
+    ("InElastic", "Results_dict_Energy"): "read-in-newton-assembly", ("HyperElastic", "Solver_Set_Stress"): "read-in-newton-assembly",
+    ("InElastic", "dt (setter)"): "read-in-newton-assembly",
+    ("_HyperElastic", "Set_active_stress_vec"): "model-state-read-by-its-methods",
+    ("HyperElasticState", "matrixType (setter)"): "model-state-read-by-its-methods", ("_Elastic", "Get_sqrt_C_S"): "unread",
+}
 NEUTRAL_CLASSES = {"DIC"}   # not a _Simu: outside the harness (stated in docs)
 
 # directed probes with their own key: behaviour that is specific to one simulation class (not expressible in the
@@ -809,6 +824,18 @@ def run(ctx):
                 else:
                     counts["unlisted"] += 1
                     unlisted.append((cname, mname, info))
+        # the checked argument behind each reviewed-neutral mutator
+        args_ = {}
+        for (c_, m_), exp in NEUTRAL_EXPECTED.items():
+            got, attrs = mutators.neutral_argument(ctx.repo, c_, m_)
+            args_["%s.%s" % (c_, m_)] = {"argument": got, "attributes": sorted(attrs)}
+            present = any(c_ == cn.split(" ")[0] and m_ in d_ for cn, d_ in aud.items())
+            if present and got != exp and not (exp != "unread" and got == "unread"):
+                ctx.violation("neutral-mutator-argument-broken:%s.%s" % (c_, m_),
+                              "the reviewed-neutral mutator %s.%s writes %s, which is now %s (the recorded argument was: %s)" % (c_, m_, sorted(attrs), got, exp),
+                              {"mutator": m_, "class": c_, "obligation": "audit:neutral-arguments"}, found_input=False)
+        ctx.cov["neutral_mutator_arguments"] = args_
+        ctx.obligation("audit:neutral-arguments", not any(v_["key"].startswith("neutral-mutator-argument-broken") for v_ in ctx.violations), "%d arguments recomputed" % len(args_))
         ctx.cov["public_mutators"] = counts
         ctx.cov["public_mutators_neutral_reasons"] = {"%s.%s" % k_: v_ for k_, v_ in NEUTRAL_MUTATORS.items()}
         ctx.obligation("audit:public-mutators", not unlisted, "%s" % counts if not unlisted else "; ".join("%s.%s" % (c_, m_) for c_, m_, _ in unlisted[:6]))
